@@ -2,6 +2,7 @@ package calcium
 
 import (
 	"context"
+	"sort"
 	"sync"
 
 	enginefactory "github.com/projecteru2/core/engine/factory"
@@ -309,9 +310,15 @@ func (c *Calcium) filterNodes(ctx context.Context, nodeFilter *types.NodeFilter)
 			return
 		}
 		// sorted by nodenames
-		nodenames := utils.Map(ns, func(node *types.Node) string { return node.Name })
-		// unique
-		p := utils.Unique(nodenames, func(i int) string { return nodenames[i] })
+		sort.SliceStable(ns, func(i, j int) bool { return ns[i].Name < ns[j].Name })
+		// unique: the nodes themselves have to be deduplicated, not a copy of their names
+		p := 0
+		for i := range ns {
+			if i == 0 || ns[i].Name != ns[p-1].Name {
+				ns[p] = ns[i]
+				p++
+			}
+		}
 		ns = ns[:p]
 	}()
 
